@@ -246,3 +246,66 @@ func c15CloseAnnouncedOnSuccessOnly(ctx *core.Ctx, r *RT) {
 		ctx.Unresolved("C15.R12", "Close", "no FTransport.Close that announces through a base transport")
 	}
 }
+
+// c10SeenItemsAreSkipped — C10.R22. A recursive collector walks a list (the
+// includes of a file) and skips what it has seen already. "Skip" means go on
+// with the NEXT item: a seen-set test inside the loop whose hit edge returns
+// from the function abandons the rest of the list — every include that follows
+// an already collected one (and everything reachable only through it) is
+// missing from the result.
+func c10SeenItemsAreSkipped(ctx *core.Ctx, cc *CC) {
+	ctx.Rule("C10.R22", "a recursive collector skips an already collected item and continues with the next: no seen-set test inside its loop returns from the function on the hit edge", 1)
+	n := 0
+	for _, fn := range cc.Fns {
+		if fn.Pkg == nil || !strings.Contains(fn.Pkg.Pkg.Path(), "/compiler") || strings.Contains(cc.V.Pos(fn.Pos()), "grammar.peg.go") {
+			continue
+		}
+		selfRec := false
+		for _, c := range ssax.Calls(fn) {
+			if c.Static == fn {
+				selfRec = true
+			}
+		}
+		if !selfRec {
+			continue
+		}
+		ord := 0
+		ssax.Instrs(fn, func(in ssa.Instruction) {
+			iff, ok := in.(*ssa.If)
+			if !ok {
+				return
+			}
+			var lk *ssa.Lookup
+			switch c := iff.Cond.(type) {
+			case *ssa.Lookup:
+				lk = c
+			case *ssa.Extract:
+				if c.Index == 1 {
+					lk, _ = c.Tuple.(*ssa.Lookup)
+				}
+			}
+			if lk == nil {
+				return
+			}
+			if _, isMap := lk.X.Type().Underlying().(*types.Map); !isMap {
+				return
+			}
+			if _, isParam := ssax.Strip(lk.X).(*ssa.Parameter); !isParam {
+				return // a set shared across the recursion
+			}
+			n++
+			ord++
+			if !inCycle(in) {
+				ctx.Discharge("C10.R22", QName(fn)+sprintf(" › seen-set test #%d", ord), cc.IPos(in), "tested once per call, before the loop")
+				return
+			}
+			hit := iff.Block().Succs[0]
+			_, returns := hit.Instrs[len(hit.Instrs)-1].(*ssa.Return)
+			ctx.Check(!returns, "C10.R22", QName(fn)+sprintf(" › seen-set test #%d", ord), cc.IPos(in), "the hit edge stays in the loop",
+				"inside the loop over the items, an item that was collected before makes the function return: the items after it are never visited — in an include graph where a file lists an already collected include before a new one, the new one (and what only it reaches) is missing from the output")
+		})
+	}
+	if n == 0 {
+		ctx.Unresolved("C10.R22", "recursive collectors", "no self-recursive function with a seen-set parameter in the compiler")
+	}
+}
